@@ -161,7 +161,7 @@ WfNlri(afi, safi, b, reach) ==
      [] OTHER -> TRUE
 NhLenOk(afi, safi, n) ==
    CASE afi = 2 /\ safi = 1 -> n \in {16, 32} [] afi = 1 /\ safi = 4 -> n \in {4} [] afi = 2 /\ safi = 4 -> n \in {16, 32}
-     [] afi = 1 /\ safi = 128 -> n = 12 [] afi = 2 /\ safi = 128 -> n \in {24, 48} [] afi = 25 /\ safi = 70 -> n \in {4, 16}
+     [] afi = 1 /\ safi = 128 -> n \in {12, 24} [] afi = 2 /\ safi = 128 -> n \in {24, 48} [] afi = 25 /\ safi = 70 -> n \in {4, 16}
      [] afi = 1 /\ safi = 133 -> n \in {0, 4} [] afi = 2 /\ safi = 133 -> n \in {0, 16} [] safi = 73 -> n \in {4, 16} [] OTHER -> TRUE
 WfMpAttrVal(t, v, asn4) ==
    CASE t = 14 -> /\ Len(v) >= 5 /\ Len(v) >= 5 + v[4] /\ NhLenOk(N16(v, 1), v[3], v[4])
@@ -210,6 +210,8 @@ VpnPool(fam) ==
        all == IF fam = "vpn4" THEN {Pfx(l, <<10, 77, 203, 13>>) : l \in 0..32} ELSE {Pfx6(l, A6a) : l \in {0, 1, 7, 8, 9, 59, 60, 63, 64, 65, 120, 127, 128}}
    IN {Mp(fam, TRUE, nh, <<Vpn(l, <<0, <<0, 100, 0, 0, 0, 100>>>>, p)>>) : l \in Labels, p \in all}
       \cup {Mp(fam, TRUE, nh, <<Vpn(16, rd, ps[i])>>) : rd \in Rds, i \in 1..Len(ps)}
+      \* next hops of the other address family (RFC 8950: VPNv4 over an IPv6 next hop)
+      \cup (IF fam = "vpn4" THEN {Mp(fam, TRUE, Zeros(8) \o Nh6, <<Vpn(16, <<0, <<0, 100, 0, 0, 0, 100>>>>, ps[i])>>) : i \in 1..Len(ps)} ELSE {})
       \* label stacks of two and three entries, alone and followed by another route
       \cup {Mp(fam, TRUE, nh, <<VpnS(ls, <<0, <<0, 100, 0, 0, 0, 100>>>>, ps[i])>>) : ls \in {<<16, 17>>, <<1048575, 3>>, <<524288, 100>>, <<100, 524288>>, <<100, 200, 300>>, <<16, 524288, 17>>}, i \in {j \in 1..Len(ps) : ps[j].l <= 96}}
       \cup {Mp(fam, TRUE, nh, <<VpnS(<<16, 17>>, <<0, <<0, 100, 0, 0, 0, 100>>>>, ps[i]), Vpn(3, <<2, <<0, 1, 0, 0, 0, 2>>>>, ps[j])>>) : i, j \in 1..Len(ps)}
